@@ -76,7 +76,8 @@ Inductive xop :=
 | CollSelect (w : coll) (p : cpred) (am : amost)  (* collection.select(filter, at_most): its cells and agents *)
 | Connect (c other : Z) (key : list Z)            (* cell.connect(other, key) *)
 | Disconnect (c other : Z) (ks : list (list Z))   (* cell.disconnect(other); ks = the direction keys of the history *)
-| ConnQuery (c : Z) (ks : list (list Z)).         (* [cell.connections.get(k) for k in ks] *)
+| ConnQuery (c : Z) (ks : list (list Z))          (* [cell.connections.get(k) for k in ks] *)
+| Fill (c a0 n : Z).                              (* scale: for a in a0 .. a0+n-1: try: agent_a.cell = cell  except: pass *)
 
 Definition raw_result (r : option Z) : result := match r with None => Ok [] | Some k => Err k end.
 
@@ -88,6 +89,15 @@ Definition choice (l : list Z) (outcome : option Z) : result :=
          | Some x => if memz x l then Ok [x] else Illegal
          | None => Illegal
          end
+  end.
+
+(* the scale operation: n placements in a row, rejected ones skipped; the result counts the successful ones *)
+Fixpoint fill_loop (en : env) (s : state) (c : Z) (l : list Z) (ok : Z) : state * Z :=
+  match l with
+  | [] => (s, ok)
+  | a :: t =>
+      let '(s1, r) := step en s (SetCell a (Some c)) in
+      fill_loop en s1 c t (match r with Ok _ => ok + 1 | _ => ok end)
   end.
 
 Definition coll_select (e : env) (s : state) (w : coll) (p : cpred) (am : amost) : list Z :=
@@ -124,6 +134,8 @@ Definition xstep (e : env) (x : xstate) (o : xop) : xstate * result :=
       else (x, NotApplicable)
   | ConnQuery c ks =>
       if in_cells en c then (x, Ok (map (fun d => match e_conn en c d with Some t => t | None => -1 end) ks)) else (x, NotApplicable)
+  | Fill c a0 n =>
+      let '(s', ok) := fill_loop en (xs x) c (zrange a0 (a0 + n - 1)) 0 in (with_xs x s', Ok [ok])
   end.
 
 (* is_full with a fractional capacity q: len == q is never true; admission uses ceil(q) (see CellSpaceXProofs) *)
